@@ -4,7 +4,7 @@
 From Coq Require Import Permutation.
 From Eino Require Import Base.Util Base.FMUniverse Model.FieldMap Proofs.FieldMapOverlap
   Model.FieldMapOwn Proofs.FieldMapAssign Proofs.FieldMapComm Proofs.FieldMapGetPut Proofs.FieldMapRun
-  Proofs.FieldMapOwn Model.FieldMapPromote Proofs.FieldMapPromote Proofs.FieldMapPartition.
+  Proofs.FieldMapOwn Model.FieldMapPromote Proofs.FieldMapPromote Proofs.FieldMapPartition Proofs.FieldMapFanIn.
 
 (* ---------------------------------------------------------------- overlap detection *)
 
@@ -420,6 +420,38 @@ Theorem static_values_order_independent :
       run_invoke_s env T ds ss ckss srcs = run_invoke_s env T ds ss' ckss srcs.
 Proof. exact statics_order_independent. Qed.
 Print Assumptions static_values_order_independent.
+
+(* The fan-in of a node collects the per-predecessor maps of mapped values from a Go map
+   (dagChannel.get over ch.Values) and merges them in that arbitrary order, in front of the map of
+   static values: whatever order [ms'] the maps [ms] of the predecessors arrive in, the node's input
+   is the one [run_invoke_s] computes — "identically on every run", whichever predecessor finishes
+   first. *)
+Theorem fanin_order_independent :
+  forall (env : senv) (T : ty) (ds : list decl) (ss : statics) (ckss : list checks) (srcs : list val)
+         (ms ms' : list fmap),
+    compile_s env T ds ss = CAccept ckss -> has_plain ds = false ->
+    Forall2 (fun d s => has_type env (d_ty d) s = true) ds srcs ->
+    edges_out env ds ckss srcs = Ok ms ->
+    Permutation ms ms' ->
+    merge_convert env T ms' ss = run_invoke_s env T ds ss ckss srcs.
+Proof. exact Proofs.FieldMapFanIn.fanin_order_independent. Qed.
+Print Assumptions fanin_order_independent.
+
+(* non-vacuity: three predecessors and a static value; all six arrival orders give the same input *)
+Example fanin_order_independent_nonvacuous :
+  let env : senv := [(1%N, [(2%N, (true, TInt)); (3%N, (true, TStr)); (4%N, (true, TAny)); (5%N, (true, TInt))])] in
+  let T := TStruct 1 in
+  let ds := [ {| d_ty := TInt; d_maps := [([], [2%N])] |};
+              {| d_ty := TStr; d_maps := [([], [3%N])] |};
+              {| d_ty := TMap true TAny; d_maps := [([7%N], [4%N; 8%N])] |} ] in
+  let ss : statics := [([5%N], VInt 9)] in
+  let srcs := [VInt 5; VStr "s"; VMap true TAny (Some [(7%N, VInt 1)])] in
+  exists ckss m1 m2 m3 v,
+    compile_s env T ds ss = CAccept ckss /\ edges_out env ds ckss srcs = Ok [m1; m2; m3] /\
+    run_invoke_s env T ds ss ckss srcs = Ok v /\
+    Forall (fun ms' => merge_convert env T ms' ss = Ok v)
+      [[m1; m2; m3]; [m1; m3; m2]; [m2; m1; m3]; [m2; m3; m1]; [m3; m1; m2]; [m3; m2; m1]].
+Proof. vm_compute. do 5 eexists. repeat split; repeat constructor. Qed.
 
 (* ---------------------------------------------------------------- promoted fields (embedded structs) *)
 
